@@ -532,7 +532,9 @@ impl Scenario for Events {
                     // the modifier set handed to the layout on a consulted press is the live one
                     for a in &asked {
                         env.cov.evaluations += 1;
-                        if a.mods != refm {
+                        // (a consultation during a modifier key's own press - its result is discarded -
+                        // may see the state just before or just after that press)
+                        if a.mods != refm && a.mods != before {
                             fail!(
                                 'ops,
                                 i,
